@@ -345,6 +345,24 @@ def run(repo: Repo, tier: str) -> Report:
             Z3 = H3[len("item1[mk_p_value["):-2] if H3 else None
             for h, sg in CASES:
                 t3[(h, sg)] = flag_at(yxt, fs.seq, h, sg, H3, Z3) if fs.rhs.key() == "trend" and H3 else fs.rhs.key()
+    elif len(flag_stores) > 1:
+        # the flag is stored under the arms of the decision itself (`if not h: r[..,3] = 0 ...`): the table is read off the guarded stores,
+        # the last store in program order whose guards hold in an abstract case decides that case
+        gs = {g for s_ in flag_stores for g in s_.guards}
+        H3 = next((g for g in sorted(gs) if g.startswith("item1[mk_p_value[")), None) or \
+            next((g[4:-1] for g in sorted(gs) if g.startswith("not[item1[mk_p_value[")), None)
+        Z3 = H3[len("item1[mk_p_value["):-2] if H3 else None
+        for h, sg in CASES:
+            cur = "no store reached"
+            for s_ in sorted(flag_stores, key=lambda x_: x_.seq):
+                hs = [holds(g, h, sg, H3, Z3) for g in s_.guards] if H3 else [None]
+                if None in hs:
+                    cur = "?"
+                    break
+                if all(hs):
+                    cur = s_.rhs.key()
+            t3[(h, sg)] = cur
+    multi_flag = len(flag_stores) > 1
     # the 3-d driver stores (tau, p, slope, flag) in slots 0..3 of the pixel
     slots = {}
     for s_ in yxt.stores:
@@ -372,7 +390,7 @@ def run(repo: Repo, tier: str) -> Report:
         sl = next((a_ for vs_ in slots.values() for v_ in vs_ for a_ in [_arg_of(v_)] if a_), None)
         want_slots = {"0": f"item1[mk_score[{sl}]]", "2": f"item0[mk_sens_slope[{sl}]]"} if sl else {}
         oks = bool(sl) and slots.get("0") == [want_slots["0"]] and slots.get("2") == [want_slots["2"]] and len(slots.get("1", [])) == 1 \
-            and slots["1"][0].startswith(f"item0[mk_p_value[mk_z_score[item0[mk_score[{sl}]];mk_variance_s[{sl}]]") and len(slots.get("3", [])) == 1
+            and slots["1"][0].startswith(f"item0[mk_p_value[mk_z_score[item0[mk_score[{sl}]];mk_variance_s[{sl}]]") and (len(slots.get("3", [])) == 1 or (multi_flag and t3 == want_t))
     ob("R-MUSTWRITE", "mann_kendall_trend_yxt", "the 3-d driver stores tau, p, slope and the flag in slots 0, 1, 2, 3 of every pixel", oks,
        f"slot stores: { {k_: [v_[:70] for v_ in vs_] for k_, vs_ in sorted(slots.items())} }", "r[yix, xix, k] = ...")
     ob("R-SIBLING(trend)", "mann_kendall_trend_yxt", "the 3-d driver uses the same decision table as the 1-d driver", deleg or t3 == want_t,
